@@ -187,7 +187,9 @@ def _flag_shard(arg):
         lines.append("other = pkg_config('otherpkg', version='0.9', auto_fill=%r)" % False)
         lines.append("pkg_config('mypkg', version='1.5', desc='a %s', includes=[inc, inc2], libs=[lib], "
                      "options=[%r, opts.define('DEF', %r)], link_options=[%r], "
-                     "link_options_private=['-Wl,--priv', '-u', 'priv_sym'], requires=['otherpkg'], auto_fill=%r)"
+                     "link_options_private=['-Wl,--priv', '-u', 'priv_sym'], requires=['otherpkg'], "
+                     # (the same package again in the private list: it stays a PUBLIC requirement)
+                     "requires_private=[('otherpkg', '>=0.5')], auto_fill=%r)"
                      % (incname.replace("'", ''), '-DOPT=' + opt, opt, '-Wl,--x=' + opt.replace(',', ''), auto))
         # things auto_fill could pick up: installed headers and libraries; two packages that say
         # explicitly that they have NO libraries / NO include directories
